@@ -46,7 +46,31 @@ let run_ignoreset () =
     done
   with End_of_file -> ()
 
+(* ---------------- reporter ---------------- *)
+let hex_decode (h : string) : string =
+  if h = "." then "" else
+  String.init (String.length h / 2) (fun i -> Char.chr (int_of_string ("0x" ^ String.sub h (2 * i) 2)))
+let hex_encode (s : string) : string =
+  let b = Buffer.create (2 * String.length s) in
+  String.iter (fun c -> Buffer.add_string b (Printf.sprintf "%02x" (Char.code c))) s; Buffer.contents b
+
+let run_reporter () =
+  try
+    while true do
+      let line = input_line stdin in
+      match fields line with
+      | [c; l; col; code; msg] ->
+        let content = if c = "-" then None else Some (chars_of_string (hex_decode c)) in
+        (match x_rep_format content (z_of_int (int_of_string l)) (z_of_int (int_of_string col))
+                 (chars_of_string code) (chars_of_string (hex_decode msg)) with
+         | Msg m -> print_endline ("M " ^ hex_encode (string_of_chars m))
+         | PanicSlice -> print_endline "P")
+      | _ -> print_endline "E"
+    done
+  with End_of_file -> ()
+
 let () =
   match Array.to_list Sys.argv with
   | _ :: "ignoreset" :: _ -> run_ignoreset ()
+  | _ :: "reporter" :: _ -> run_reporter ()
   | _ -> prerr_endline "usage: modelrun <suite>"; exit 2
